@@ -404,7 +404,12 @@ func (m *tokenBucketWrapper) SetLimit(acquireResult *AcquireResult) bool {
 			klog.V(2).Infof("[global tokenBucket] cluster=%q resize flowcontrol=%s qps=%v requestID=%v for error: %v",
 				m.fcc.cluster, m.fcc.name, lastQPS, acquireResult.requestTime, result.Error)
 
-			m.FlowControl.Resize(uint32(lastQPS), uint32(lastQPS))
+			// the degraded bucket never has a larger burst than the one in force before the outage
+			degradedBurst := uint32(lastQPS)
+			if degradedBurst > m.burst {
+				degradedBurst = m.burst
+			}
+			m.FlowControl.Resize(uint32(lastQPS), degradedBurst)
 			atomic.StoreUint32(&m.serverUnavailable, 1)
 		}
 		m.lock.Unlock()
@@ -454,7 +459,7 @@ func (m *tokenBucketWrapper) Resize(qps uint32, burst uint32) bool {
 		m.tokenBatch = GlobalTokenBucketBatchAcquireMin
 	}
 	m.qps = qps
-	m.burst = qps
+	m.burst = burst
 	if atomic.LoadUint32(&m.serverUnavailable) == 0 {
 		return m.FlowControl.Resize(qps, burst)
 	}
